@@ -7,12 +7,11 @@ From CV Require Import Base.Bytes Names.Defs Names.VmProofs.
 Import ListNotations.
 Local Open Scope N_scope.
 
-(* For every operation sequence in which no name is declared twice inside one open frame: every
+(* For every operation sequence (no side condition since /repo f35544d undoes in reverse): every
    lookup through the local map answers the innermost binding of the frame-stack specification
    (a lookup at a `type name (` site whose entry is already `assigned` may answer "none" instead),
    every Add/Fresh returns the id the specification allocates, Leave returns what the spec returns. *)
-Theorem C08_vm_refines_scopes : forall ops,
-  redecl_free ops = true -> outs_ok out_ok ops (run_vm ops) (run_sp ops).
+Theorem C08_vm_refines_scopes : forall ops, outs_ok out_ok ops (run_vm ops) (run_sp ops).
 Proof. exact vm_refines_scopes. Qed.
 Print Assumptions C08_vm_refines_scopes.
 
@@ -21,29 +20,29 @@ Example C08_vm_refines_scopes_inhabited :
   run_vm [Add [120] true; Enter; Add [120] false; Use [120] false false; Leave; Use [120] false false] = [1; 0; 2; 2; 1; 1].
 Proof. vm_compute. split; reflexivity. Qed.
 
-(* The hypothesis is needed: leaveScope() replays the undo log in insertion order, so a second
-   declaration of the same name in one frame leaves the first inner id behind. *)
-Theorem C08_vm_same_scope_redecl_refuted :
-  exists ops, redecl_free ops = false /\ ~ outs_ok out_ok ops (run_vm ops) (run_sp ops).
-Proof. exact vm_same_scope_redecl_refuted. Qed.
-Print Assumptions C08_vm_same_scope_redecl_refuted.
+(* the former counterexample (a name declared twice inside one frame, C: `for (int i..) { int i; }`)
+   now restores the outer binding *)
+Theorem C08_vm_same_scope_redecl_restored :
+  redecl_free redecl_witness = false /\ run_vm redecl_witness = run_sp redecl_witness /\ nth 4 (run_vm redecl_witness) 9 = 0.
+Proof. exact vm_same_scope_redecl_restored. Qed.
+Print Assumptions C08_vm_same_scope_redecl_restored.
 
-(* `::name` (lookups through mVariableId_global): if, in addition, every declaration made while no
+(* `::name` (lookups through mVariableId_global): if every declaration made while no
    frame is open is flagged globalNamespace, a lookup of a name the global frame binds answers that
    binding. *)
 Theorem C08_vm_global_lookup : forall ops,
-  redecl_free ops = true -> glob_flag_ok ops = true -> outs_ok out_ok_glob ops (run_vm ops) (run_sp ops).
+  glob_flag_ok ops = true -> outs_ok out_ok_glob ops (run_vm ops) (run_sp ops).
 Proof. exact vm_global_lookup. Qed.
 Print Assumptions C08_vm_global_lookup.
 
 Example C08_vm_global_lookup_inhabited :
   let ops := [Add [97] true; Enter; Add [97] false; Find [97] true; Leave] in
-  redecl_free ops = true /\ glob_flag_ok ops = true /\ run_vm ops = [1; 0; 2; 1; 1].
+  glob_flag_ok ops = true /\ run_vm ops = [1; 0; 2; 1; 1].
 Proof. vm_compute. repeat split; reflexivity. Qed.
 
 (* ... and only then: a name the global frame does not bind can be answered with a parameter's id. *)
 Theorem C08_vm_global_pollution_refuted :
-  exists ops, redecl_free ops = true /\ run_sp ops <> run_vm ops /\
+  exists ops, run_sp ops <> run_vm ops /\
               nth 3 (run_sp ops) 9 = 0 /\ nth 3 (run_vm ops) 9 = 1.
 Proof. exact vm_global_pollution_refuted. Qed.
 Print Assumptions C08_vm_global_pollution_refuted.
@@ -59,12 +58,12 @@ Print Assumptions C08_vm_ids_distinct.
 (* Leave restores exactly the outer bindings: around a balanced block the answer for every name is
    what it was before the block *)
 Theorem C08_vm_leave_restores : forall pre body,
-  redecl_free (pre ++ Enter :: body ++ [Leave]) = true -> bal 0 body = true ->
+  bal 0 body = true ->
   forall k, vm_view (fst (vm_run vm0 (pre ++ Enter :: body ++ [Leave]))) k = vm_view (fst (vm_run vm0 pre)) k.
 Proof. exact vm_leave_restores. Qed.
 Print Assumptions C08_vm_leave_restores.
 
 Example C08_vm_leave_restores_inhabited :
   let pre := [Add [120] true] in let body := [Add [120] false; Enter; Add [121] false; Leave; Add [121] false] in
-  redecl_free (pre ++ Enter :: body ++ [Leave]) = true /\ bal 0 body = true.
+  bal 0 body = true /\ bal 0 [Add [120] false; Add [120] false] = true.
 Proof. vm_compute. split; reflexivity. Qed.
